@@ -11,6 +11,7 @@ import (
 	"fmt"
 	"os"
 	"regexp"
+	"slices"
 	"strings"
 
 	"pgregory.net/rapid"
@@ -27,6 +28,8 @@ import (
 //	blk    node B receives its next block from the most advanced audible node
 //	settle deliver up to A pending messages in FIFO order
 //	dto    deliver everything now pending for node A (FIFO)   xto / xfrom  lose everything pending for / from node A
+//	adv    a stretch of synchronous operation: everything pending is delivered (FIFO), lagging nodes are served blocks,
+//	       the earliest timer fires when the network is idle, until every node has one more block (at most A steps)
 type C19Ev struct {
 	K string `json:"k"`
 	A int    `json:"a,omitempty"`
@@ -35,15 +38,16 @@ type C19Ev struct {
 
 // C19Case is a safety schedule.
 type C19Case struct {
-	N         int     `json:"n"`
-	SRIH      bool    `json:"srih,omitempty"`
-	Bypass    bool    `json:"bypass_dedup,omitempty"` // hand duplicates to the service even if the node's extensible pool knows them
-	PoolFirst bool    `json:"pool_first,omitempty"`   // a received tx enters the mempool before (true) / after the consensus callback
-	AutoZero  bool    `json:"auto_zero,omitempty"`    // a timer armed with zero delay fires at once (as the wall-clock timer does)
-	Lim       C19Lim  `json:"lim"`                    // small block limits (zero value: defaults)
-	Pools     [][]int `json:"pools"`                  // initial mempool of node j: indices into the tx pool
-	Skew      []int   `json:"skew_ms,omitempty"`      // clock skew of node j
-	Evs       []C19Ev `json:"evs"`
+	N         int       `json:"n"`
+	Shift     *C19Shift `json:"shift,omitempty"` // the validator set changes inside the run (N = 6 nodes: the whole committee)
+	SRIH      bool      `json:"srih,omitempty"`
+	Bypass    bool      `json:"bypass_dedup,omitempty"` // hand duplicates to the service even if the node's extensible pool knows them
+	PoolFirst bool      `json:"pool_first,omitempty"`   // a received tx enters the mempool before (true) / after the consensus callback
+	AutoZero  bool      `json:"auto_zero,omitempty"`    // a timer armed with zero delay fires at once (as the wall-clock timer does)
+	Lim       C19Lim    `json:"lim"`                    // small block limits (zero value: defaults)
+	Pools     [][]int   `json:"pools"`                  // initial mempool of node j: indices into the tx pool
+	Skew      []int     `json:"skew_ms,omitempty"`      // clock skew of node j
+	Evs       []C19Ev   `json:"evs"`
 }
 
 const (
@@ -111,6 +115,48 @@ func c19GenPools(t *rapid.T, n int) [][]int {
 	return pools
 }
 
+var c19ShiftRanks = [][]int{
+	{4, 5, 0, 1, 2, 3}, // members 4 and 5 outrank 2 and 3: two new validators
+	{5, 4, 3, 2, 1, 0}, // validators 2..5
+	{0, 1, 2, 4, 3, 5}, // one new validator
+	{4, 5, 3, 0, 1, 2}, // validators 0, 3, 4, 5
+	{3, 2, 1, 0, 5, 4}, // an election that keeps the validators
+	{5, 0, 4, 1, 3, 2}, // validators 0, 1, 4, 5 in another committee order
+}
+
+// c19GenShift draws a world whose validator set changes at the refresh height inside the run.
+func c19GenShift(t *rapid.T) *C19Shift {
+	s := &C19Shift{Base: rapid.SampledFrom([]int{4, 4, 5}).Draw(t, "base")}
+	rank := func() []int {
+		if rapid.IntRange(0, 3).Draw(t, "anyrank") == 0 {
+			return rapid.Permutation([]int{0, 1, 2, 3, 4, 5}).Draw(t, "rank")
+		}
+		return slices.Clone(rapid.SampledFrom(c19ShiftRanks).Draw(t, "rank"))
+	}
+	pair := func(ps ...[2]int) {
+		p := rapid.SampledFrom(ps).Draw(t, "counts")
+		s.V0, s.V1 = p[0], p[1]
+	}
+	switch rapid.IntRange(0, 11).Draw(t, "shiftkind") {
+	case 0, 1, 2, 3: // votes reorder the candidates inside the committee, the count stays
+		s.Rank = rank()
+	case 4, 5: // the count grows
+		pair([2]int{1, 4}, [2]int{1, 4}, [2]int{4, 6}, [2]int{1, 6}, [2]int{4, 5}, [2]int{2, 4})
+	case 6, 7, 8: // the count shrinks
+		pair([2]int{4, 1}, [2]int{4, 1}, [2]int{6, 4}, [2]int{6, 4}, [2]int{4, 2}, [2]int{5, 4}, [2]int{6, 1}, [2]int{4, 3})
+	case 9, 10: // both
+		s.Rank = rank()
+		pair([2]int{1, 4}, [2]int{4, 6}, [2]int{4, 1}, [2]int{6, 4}, [2]int{4, 3}, [2]int{4, 5}, [2]int{4, 4})
+	default: // the committee grows with the validators
+		s.C0 = 3
+		pair([2]int{1, 4}, [2]int{3, 4}, [2]int{3, 1}, [2]int{3, 6}, [2]int{3, 3})
+		if rapid.Bool().Draw(t, "c0rank") {
+			s.Rank = rank()
+		}
+	}
+	return s
+}
+
 var c19FrontBias = []int{0, 0, 0, 0, 0, 1, 1, 2, 3, 5, 8, 13, 21, 34}
 
 func c19GenEv(n int) func(t *rapid.T) C19Ev {
@@ -151,6 +197,9 @@ func c19GenEv(n int) func(t *rapid.T) C19Ev {
 
 func c19GenSafety(t *rapid.T) C19Case {
 	c := C19Case{N: rapid.SampledFrom([]int{4, 4, 4, 7}).Draw(t, "n")}
+	if rapid.IntRange(0, 9).Draw(t, "shifted") < 4 {
+		c.N, c.Shift = c19ShiftNodes, c19GenShift(t)
+	}
 	c.SRIH = rapid.Bool().Draw(t, "srih")
 	c.Bypass = rapid.Bool().Draw(t, "bypass")
 	c.PoolFirst = rapid.Bool().Draw(t, "poolfirst")
@@ -165,11 +214,26 @@ func c19GenSafety(t *rapid.T) C19Case {
 	default:
 		c.Pools = c19GenPools(t, c.N)
 	}
+	if c.Shift != nil {
+		c.Lim.SizeTxs = 0 // calibrated for a fixed number of block signatures
+	}
 	if rapid.Bool().Draw(t, "skewed") {
 		c.Skew = rapid.SliceOfN(rapid.SampledFrom([]int{0, 0, 1, 500, 3000}), c.N, c.N).Draw(t, "skew")
 	}
 	ne := rapid.IntRange(30, c19MaxEvents).Draw(t, "nev")
 	c.Evs = rapid.SliceOfN(rapid.Custom(c19GenEv(c.N)), ne, ne).Draw(t, "evs")
+	if c.Shift != nil {
+		// Bring the adversarial part of the schedule close to the validator change: 0-3 blocks are made under
+		// synchrony first (the refresh block is the first or second block of the run), one more stretch may follow later.
+		lead := rapid.SampledFrom([]int{0, 1, 1, 2, 2, 2, 3}).Draw(t, "lead")
+		for i := 0; i < lead; i++ {
+			c.Evs = slices.Insert(c.Evs, i, C19Ev{K: "adv", A: 400})
+		}
+		if rapid.Bool().Draw(t, "midadv") {
+			at := rapid.IntRange(lead, len(c.Evs)).Draw(t, "advat")
+			c.Evs = slices.Insert(c.Evs, at, C19Ev{K: "adv", A: 400})
+		}
+	}
 	return c
 }
 
@@ -214,6 +278,63 @@ func (net *c19Net) autoFire() error {
 	return nil
 }
 
+// advance: synchronous operation until every audible node has one more block than the most advanced one has now.
+func (net *c19Net) advance(maxSteps int) error {
+	target, _ := net.maxHeight()
+	target++
+	for step := 0; step < maxSteps && net.deliveries < c19MaxDeliveries; step++ {
+		done := true
+		var lag *c19Node
+		mh, best := net.maxHeight()
+		for _, n := range net.nodes {
+			if n.silent {
+				continue
+			}
+			if n.bc.BlockHeight() < target {
+				done = false
+			}
+			if n.bc.BlockHeight() < mh && lag == nil {
+				lag = n
+			}
+		}
+		if done {
+			return nil
+		}
+		switch {
+		case len(net.pending) > 0:
+			if err := net.deliver(net.take(0)); err != nil {
+				return err
+			}
+		case lag != nil:
+			if _, err := net.relay(best, lag); err != nil {
+				return err
+			}
+		default:
+			var n *c19Node
+			for _, k := range net.nodes { // the earliest armed timer of an audible node
+				k.tm.mu.Lock()
+				armed, d := k.tm.armed, k.tm.deadline
+				k.tm.mu.Unlock()
+				if armed && !k.silent && (n == nil || d < n.tm.deadline) {
+					n = k
+				}
+			}
+			if n == nil {
+				return nil
+			}
+			if _, err := net.fire(n); err != nil {
+				return err
+			}
+		}
+		if net.autoZero {
+			if err := net.autoFire(); err != nil {
+				return err
+			}
+		}
+	}
+	return nil
+}
+
 func (net *c19Net) exec(ev C19Ev) error {
 	N := len(net.nodes)
 	switch ev.K {
@@ -244,6 +365,8 @@ func (net *c19Net) exec(ev C19Ev) error {
 				return err
 			}
 		}
+	case "adv":
+		return net.advance(ev.A)
 	case "xto", "xfrom":
 		who := c19Mod(ev.A, N)
 		var rest []*c19Msg
@@ -296,7 +419,7 @@ func (net *c19Net) exec(ev C19Ev) error {
 		return net.acceptTx(n, net.w.txs[k])
 	case "sil":
 		n := net.nodes[c19Mod(ev.A, N)]
-		if !n.silent && net.silentCount() < net.f {
+		if !n.silent && net.maySilence(n) {
 			n.silent = true
 			net.label("silent-node")
 			net.logf("silence n%d", n.idx)
@@ -362,17 +485,17 @@ func c19Record(c any, net *c19Net, verdict string) {
 }
 
 func c19CheckSafety(c C19Case, o *vt.Obs) (err error) {
-	if c.N != 4 && c.N != 7 {
-		return fmt.Errorf("bad case: n=%d", c.N)
+	if err := c19CheckN(c.N, c.Shift); err != nil {
+		return err
 	}
-	w, err := c19GetWorld(c.N, c.SRIH)
+	w, err := c19GetWorld(c.N, c.SRIH, c.Shift)
 	if err != nil {
 		return fmt.Errorf("HARNESS: world: %w", err)
 	}
 	net, err := c19NewNet(w, c.Pools, c.Skew, c.Bypass, c.PoolFirst, c.Lim)
 	defer net.close()
 	if err != nil {
-		return fmt.Errorf("HARNESS: network: %w", err)
+		return c19NetErr(net, err)
 	}
 	net.autoZero = c.AutoZero
 	executed := 0
@@ -420,11 +543,48 @@ func c19CheckSafety(c C19Case, o *vt.Obs) (err error) {
 	return nil
 }
 
+func c19CheckN(n int, shift *C19Shift) error {
+	if shift != nil {
+		if n != c19ShiftNodes {
+			return fmt.Errorf("bad case: n=%d with a shift", n)
+		}
+		return shift.validate()
+	}
+	if n != 4 && n != 7 {
+		return fmt.Errorf("bad case: n=%d", n)
+	}
+	return nil
+}
+
 func c19Classify(net *c19Net, o *vt.Obs, w *c19World) {
 	for l := range net.labels {
 		o.Label(l)
 	}
 	h, _ := net.maxHeight()
+	if s := w.shift; s != nil {
+		v0, v1 := s.counts()
+		o.Labelf("shift: validators %d>%d", v0, v1)
+		if len(s.Rank) != 0 {
+			kept := 0
+			for _, j := range w.post {
+				if slices.Contains(w.pre, j) {
+					kept++
+				}
+			}
+			o.Labelf("shift: election, %d of %d new validators were validators before", kept, len(w.post))
+		}
+		if s.C0 != 0 {
+			o.Label("shift: committee 3>6")
+		}
+		switch {
+		case h > w.refresh:
+			o.Label("shift: blocks by the new validators")
+		case h == w.refresh:
+			o.Label("shift: refresh block reached")
+		default:
+			o.Label("shift: refresh block not reached")
+		}
+	}
 	o.Labelf("n=%d", len(net.nodes))
 	if net.lim.Cap() > 0 {
 		o.Label("small-block-limits")
